@@ -71,7 +71,11 @@ LexLess(a, b) == IF a = << >> THEN FALSE
                  ELSE IF Head(a) # Head(b) THEN Head(a) < Head(b) ELSE LexLess(Tail(a), Tail(b))
 \* position (1-based) of dictionary entry i in the sorted order, by key function K
 RankBy(d, i, K(_)) == 1 + Cardinality({ j \in 1..Len(d) : LexLess(K(d[j].m), K(d[i].m)) \/ (K(d[j].m) = K(d[i].m) /\ j < i) })
-OrderBy(d, K(_)) == [ r \in 1..Len(d) |-> CHOOSE i \in 1..Len(d) : RankBy(d, i, K) = r ]     \* rank -> dict index
+\* Tabulate(f, n) == << f[1], ..., f[n] >>: an explicit sequence.  TLC keeps [x \in S |-> e] as an unevaluated closure
+\* and re-evaluates e at EVERY application, so a function that is indexed many times is tabulated once.
+RECURSIVE Tabulate(_, _)
+Tabulate(f, n) == IF n = 0 THEN << >> ELSE Append(Tabulate(f, n - 1), f[n])
+OrderBy(d, K(_)) == Tabulate([ r \in 1..Len(d) |-> CHOOSE i \in 1..Len(d) : RankBy(d, i, K) = r ], Len(d))     \* rank -> dict index
 Order(d) == OrderBy(d, Key)
 
 \* projections of a stored tuple for the three list modes
